@@ -152,7 +152,7 @@ namespace {
         } );
         auto qout  = rc::gen::exec( [] { return make( QOUT, *range< int >( 0, 1 ), *range< int >( 1, 48 ), *range< int >( 0, 255 ) ); } );
         auto cpu   = rc::gen::exec( [] { return make( CPU, *range< int >( 0, 0xffff ), *range< int >( 0, 0xffff ), *range< int >( 0, 0xffff ), *range< int >( 0, 0xffff ) ); } );
-        auto cycle = rc::gen::exec( [] { return make( CYCLE, *weighted< int >( { { 88, range< int >( 1, 5 ) }, { 12, range< int >( 250, 270 ) } } ) ); } );
+        auto cycle = rc::gen::exec( [] { return make( CYCLE, *weighted< int >( { { 96, range< int >( 1, 5 ) }, { 4, range< int >( 250, 270 ) } } ) ); } );
         return weighted< Op >( { { 42, gen_frame() }, { 13, gen_resp() }, { 10, bufs }, { 13, rc::gen::just( make( POLL ) ) }, { 7, qout }, { 13, cpu }, { 2, cycle } } );
     }
 
